@@ -37,6 +37,13 @@ def run(ctx):
     r3_export_order(ctx, g, flows)
     r4_separators(ctx)
     check_nullish_tables(ctx, 'R5')
+    # every token reaches the text through the tokenizer of the requested encoding (no raw-text bypass): canonical order and
+    # de-duplication are properties of that path
+    from . import c04
+    ctx.alias = {'R4': 'R8', 'R5': 'R8'}
+    c04.r4_header(ctx)
+    c04.r5_factory(ctx)
+    ctx.alias = {}
     # the default export of one call cannot depend on an earlier call (options that stick, a selection that shrinks)
     from . import shared
     shared.effect_free(ctx, 'R7', [f'{N.PUBLIC}.dumps', f'{N.MAPPER}.valid'],
